@@ -152,19 +152,16 @@ class Share(object):
         self.last = 0.0            # virtual time of the last event that (re)started the upload timeout
 
     def complete(self):
-        return all(self.mask)
+        return self.mask.find(0) == -1
 
     def holes(self):
-        out, i = [], 0
-        while i < self.size:
-            if not self.mask[i]:
-                j = i
-                while j < self.size and not self.mask[j]:
-                    j += 1
-                out.append((i, j))
-                i = j
-            else:
-                i += 1
+        out, i = [], self.mask.find(0)
+        while i != -1:
+            j = self.mask.find(1, i)
+            if j == -1:
+                j = self.size
+            out.append((i, j))
+            i = self.mask.find(0, j) if j < self.size else -1
         return out
 
 
@@ -189,7 +186,8 @@ def run(ck):
                      "identical-overlap-accepted-both", "read-past-end-short-both", "read-at-end-empty-both",
                      "rtw-testv-failed-both", "rtw-wrong-enabler-rejected-both", "rtw-share-deleted-both",
                      "lease-renewed-both", "abort-both", "chunk-loop-over-64k", "whole-share-get",
-                     "not-found-both", "upload-timeout-both", "read-loop-over-64k")
+                     "not-found-both", "upload-timeout-both", "read-loop-over-64k",
+                     "large-duplicate-write", "large-write-conflict-in-later-block", "large-shifted-overlap-write")
     ck.exhaustive = False
 
 
@@ -324,12 +322,12 @@ def one_case(ck, ci, rng):
                 raise Diverged()
 
         # ---------------------------------------------------------- operations
-        def op_alloc():
-            si = rng.choice(imm_sis)
+        def op_alloc(si=None, nums=None, mode=None):
+            si = si or rng.choice(imm_sis)
             size = imm_size[si]
-            nums = set(rng.sample(range(5), rng.randint(1, 3)))
+            nums = nums or set(rng.sample(range(5), rng.randint(1, 3)))
             renew, cancel = rng.choice(leases)
-            mode = rng.choice(["client", "adapter"])
+            mode = mode or rng.choice(["client", "adapter"])
             secret = rng.randbytes(rng.choice([16, 20, 32]))
             hold = {}
 
@@ -448,6 +446,54 @@ def one_case(ck, ci, rng):
                 if len(sh.written) > 2 and any(sh.written[i][0] > sh.written[i + 1][0] for i in range(len(sh.written) - 1)):
                     ck.hit("upload-completed-by-out-of-order-chunks")
                 ck.hit("upload-completed")
+            return ra, rb
+
+        def op_large_directed():
+            """Directed: PATCH bodies of several 64 KiB blocks that overlap data already written (the server walks
+            such a body block by block, twice: conflict pre-check, then write)."""
+            si = rng.randbytes(16)
+            imm_sis.append(si)
+            imm_size[si] = rng.choice([200003, 262144, 262145, 300000])
+            size = imm_size[si]
+            n = rng.randrange(5)
+            op_alloc(si, {n}, rng.choice(["client", "client", "adapter"]))
+            sh = shares.get((si, n))
+            if sh is None or sh.state != "open":
+                return
+            a = rng.randint(1, 40000)
+            L = rng.randint(2 * K64 + 1, min(size - a - 5000, 3 * K64 + 5000))      # 3 or 4 blocks
+            do_write(sh, a, sh.data[a:a + L], "fresh")
+            # (1) the very same body again (idempotent retry)
+            ra, rb = do_write(sh, a, sh.data[a:a + L], "duplicate")
+            if ra[0] == "ok" and rb[0] == "ok":
+                ck.hit("large-duplicate-write")
+            # (2) shifted so that it partly overlaps identical data: fresh head, then fresh tail
+            b = rng.randint(0, a - 1)
+            ra, rb = do_write(sh, b, sh.data[b:b + K64 + rng.randint(1, K64)], "overlap-identical")
+            if ra[0] == "ok" and rb[0] == "ok":
+                ck.hit("large-shifted-overlap-write")
+            c = a + L - rng.randint(K64 + 1, 2 * K64)
+            e = min(size, a + L + rng.randint(1, 3000))
+            if e < size or rng.random() < 0.5:      # (keep the share open most of the time)
+                e = min(e, size - 1)
+            ra, rb = do_write(sh, c, sh.data[c:e], "overlap-identical")
+            if ra[0] == "ok" and rb[0] == "ok":
+                ck.hit("large-shifted-overlap-write")
+            # (3) a body whose only conflicting byte lies in its 2nd or 3rd 64 KiB block
+            if sh.state == "open":
+                start = rng.choice([b, a, a + rng.randint(1, 1000)])
+                blk = rng.choice([1, 2])
+                pos = start + blk * K64 + rng.randrange(K64)
+                pos = min(pos, a + L - 1)
+                if pos - start >= K64 and sh.mask[pos]:
+                    end = min(size, max(pos + 1, start + (blk + 1) * K64 - rng.randrange(0, 3000)))
+                    buf = bytearray(sh.data[start:end])
+                    buf[pos - start] ^= 0x5a
+                    ra, rb = do_write(sh, start, bytes(buf), "conflicting-in-block-%d" % (blk + 1))
+                    if ra == ("err", "conflict") and rb == ("err", "conflict"):
+                        ck.hit("large-write-conflict-in-later-block")
+                    # the rejected body must have left nothing behind: an identical rewrite still agrees
+                    do_write(sh, start, sh.data[start:end], "overlap-identical")
 
         def op_write():
             cands = open_shares()
@@ -790,6 +836,8 @@ def one_case(ck, ci, rng):
             wts[fns.index(op_finish)] = 14
         try:
             op_alloc()
+            if ci % 5 == 2 or (ck.tier == "thorough" and ci % 5 == 4):
+                op_large_directed()
             for _ in range(nops):
                 if ck.out_of_time():
                     break
